@@ -81,6 +81,11 @@ func (comp *Compiler) Compile(stmts []*gripql.GraphStatement, opts *gdbi.Compile
 		return cmpl.Compile(stmts, opts)
 	}
 
+	// the same structural checks as the core compiler: the traversal starts with V() or E()
+	if err := core.Validate(stmts, opts); err != nil {
+		return &Pipeline{}, fmt.Errorf("invalid statments: %s", err)
+	}
+
 	procs := []gdbi.Processor{}
 	query := mongo.Pipeline{}
 	startCollection := ""
@@ -537,6 +542,9 @@ func (comp *Compiler) Compile(stmts []*gripql.GraphStatement, opts *gdbi.Compile
 				return &Pipeline{}, fmt.Errorf(`"hasLabel" statement is only valid for edge or vertex types not: %s`, lastType.String())
 			}
 			labels := protoutil.AsStringList(stmt.HasLabel)
+			if len(labels) == 0 {
+				return &Pipeline{}, fmt.Errorf(`no labels provided to "hasLabel" statement`)
+			}
 			ilabels := make([]interface{}, len(labels))
 			for i, v := range labels {
 				ilabels[i] = v
@@ -551,6 +559,9 @@ func (comp *Compiler) Compile(stmts []*gripql.GraphStatement, opts *gdbi.Compile
 				return &Pipeline{}, fmt.Errorf(`"hasId" statement is only valid for edge or vertex types not: %s`, lastType.String())
 			}
 			ids := protoutil.AsStringList(stmt.HasId)
+			if len(ids) == 0 {
+				return &Pipeline{}, fmt.Errorf(`no ids provided to "hasId" statement`)
+			}
 			iids := make([]interface{}, len(ids))
 			for i, v := range ids {
 				iids[i] = v
@@ -566,6 +577,9 @@ func (comp *Compiler) Compile(stmts []*gripql.GraphStatement, opts *gdbi.Compile
 			}
 			hasKeys := bson.M{}
 			keys := protoutil.AsStringList(stmt.HasKey)
+			if len(keys) == 0 {
+				return &Pipeline{}, fmt.Errorf(`no keys provided to "hasKey" statement`)
+			}
 			for _, key := range keys {
 				key = jsonpath.GetJSONPath(key)
 				key = strings.TrimPrefix(key, "$.")
